@@ -104,11 +104,12 @@ func (b basicTri) TTri() mat.Triangular         { return mat.TransposeTri{Triang
 
 // Fresh-operand variants for a general r×c matrix position.
 const (
-	fvDense = iota // *mat.Dense
-	fvBasic        // type without Raw methods
-	fvSym          // *mat.SymDense (square only)
-	fvTriU         // *mat.TriDense upper (square only)
-	fvVec          // *mat.VecDense (single column only)
+	fvDense  = iota // *mat.Dense
+	fvBasic         // type without Raw methods
+	fvSym           // *mat.SymDense (square only)
+	fvTriU          // *mat.TriDense upper (square only)
+	fvVec           // *mat.VecDense (single column only)
+	fvDenseT        // a *mat.Dense under T()
 	nfvAll
 )
 
@@ -133,6 +134,8 @@ func fMat(fv, r, c, salt int) (mat.Matrix, bool) {
 			return nil, false
 		}
 		return fVec(r, salt), true
+	case fvDenseT:
+		return fDense(c, r, salt).T(), true
 	}
 	return nil, false
 }
